@@ -298,6 +298,46 @@ def r01i(ctx, rep, rule="R01i"):
                                    "hold the procedure when the call executes", [pt["loc"]])
 
 
+GLOBAL_READERS = ("marwood::vm::environment::GlobalEnvironment::get", "marwood::vm::environment::GlobalEnvironment::get_slot",
+                  "marwood::vm::environment::GlobalEnvironment::iter_slots")
+
+
+def r01j(ctx, rep, rule="R01j"):
+    from ..flow import Labels
+    facts = ctx["facts"]
+    rep.rule(rule, "globals are read when the code runs, not when it is compiled: inside the compiler the *value* of a global "
+             "slot (GlobalEnvironment::get / get_slot) is consulted only to recognise a macro keyword; nothing derived from "
+             "it is handed to Lambda::emit. Code that embeds the current value of a global keeps using it after the global "
+             "is redefined or set!, so the outcome depends on the order of earlier definitions.")
+    n = 0
+    for p, f in sorted(facts.fns.items()):
+        if not p.startswith(COMPILE) or "::tests::" in p:
+            continue
+        reads = [(bb, t) for bb, t in f.calls() if callee(t) in GLOBAL_READERS or (callee(t) or "").startswith(GLOBAL_READERS[0] + "::<")]
+        if not reads:
+            continue
+        init = {}
+        for bb, t in reads:
+            if not t["dest"]["p"]:
+                init.setdefault(t["dest"]["l"], set()).add("gv")
+        lab = Labels(f, init=init)
+        k = 0
+        for bb, t in reads:
+            n += 1
+            k += 1
+        bad = []
+        for bb, t in f.calls():
+            if callee(t) == EMIT and len(t["args"]) > 1 and "gv" in lab.of_op(t["args"][1]):
+                bad.append(t)
+        key = "%s|%s" % (rule, f.short.rsplit("::", 1)[-1])
+        if bad:
+            rep.fail(rule, key, "%s reads the value of a global slot while compiling and emits something derived from it as an "
+                     "operand: the compiled code is bound to what the global held at compile time" % f.short, [bad[0]["loc"]])
+        else:
+            rep.ok(rule, key, "%s reads a global value while compiling (%d site(s)) but emits nothing derived from it" % (f.short, k), [f.span])
+    rep.floor(rule, "compile-time reads of global values (macro lookup)", n, 1)
+
+
 def run(ctx, rep):
     r01a(ctx, rep)
     rep.rule("R01c", "CALL/TCALL twin agreement: the builtin, continuation and non-procedure sub-arms of the CallAcc and "
@@ -312,5 +352,6 @@ def run(ctx, rep):
     prelude.r01g(ctx, rep)
     prelude.r01h(ctx, rep)
     r01i(ctx, rep)
+    r01j(ctx, rep)
     rep.not_decided += ["values computed by any program (the property as stated)", "a handler that is present but wrong",
                         "the order in which the machine pops operands back (ENTER / VARARG arithmetic is value-level)"]
